@@ -103,6 +103,48 @@ def frac_ambiguous(vals_sorted_clipped, p):
     return False
 
 
+# ---------------------------------------------------------------- the translated selection rule
+def select_level(rep, rng, quick):
+    """_select_number_eigencomponents against its own TRANSLATION (Gen/Select.v, regenerated on this run) executed in Q."""
+    from FDApy.misc.utils import _select_number_eigencomponents
+    run = C.CoqRun("C01", IMPORTS.replace("Tie.C01.", "Gen.Select Tie.C01."), shard=1)
+    todo = []
+    for i in range(30 if quick else 300):
+        n = int(rng.integers(1, 9))
+        evs = np.sort(np.round(rng.uniform(0.01, 4.0, size=n) * 64) / 64)[::-1]
+        if i % 5 == 4 and n >= 2:
+            evs[-1] = 0.0            # (the total stays positive: the theorem's hypothesis; 0/0 is NaN in the code, 0 in the totalised model)
+        sels = [None, int(rng.integers(1, n + 1)), float(np.round(rng.uniform(0.05, 0.99), 3)), 0.5, 1.0, 1.5]
+        for sl in sels:
+            try:
+                k = int(_select_number_eigencomponents(evs.copy(), sl))
+            except ValueError:
+                k = None
+            except Exception as e:  # noqa: BLE001
+                rep.violation(f"_select_number_eigencomponents raised {type(e).__name__}: {e}"[:200],
+                              {"level": "select", "eigenvalues": C.hexf(evs), "sel": sl})
+                continue
+            if isinstance(sl, float) and sl < 1 and np.min(np.abs(np.cumsum(evs) / np.sum(evs) - sl)) < 1e-9:
+                continue          # a cumulated share within rounding of the fraction: either side is legitimate in floating point
+            want = "None" if k is None else f"Some {k}%nat"
+            t = run.add(f"match gen_npc opsQ {sel_term(sl)} {C.qlist(evs)}, {want} with Some a, Some b => Nat.eqb a b "
+                        f"| None, None => true | _, _ => false end")
+            todo.append((t, evs, sl, k))
+    try:
+        res = run.run()
+    except RuntimeError as e:
+        rep.notes.append(("translated _select_number_eigencomponents could not be evaluated (Gen/Select.v does not load): " + str(e))[:300])
+        return
+    for t, evs, sl, k in todo:
+        rep.case(("translated-select", evs.tobytes(), repr(sl)), nontrivial=len(evs) >= 2, kind="translated-selection-rule",
+                 sample={"level": "select", "n": int(len(evs)), "sel": sl, "impl": k})
+        if not res[t]:
+            rep.disagreements_checked += 1
+            rep.violation(f"translator check: _select_number_eigencomponents(eigenvalues, {sl!r}) returns {k} (None = ValueError) but its "
+                          f"Gallina translation evaluated in Q gives something else",
+                          {"level": "select", "eigenvalues": C.hexf(evs), "sel": sl, "impl": k})
+
+
 # ---------------------------------------------------------------- helper level
 def helper_level(rep, rng, quick):
     from FDApy.misc.utils import _compute_eigen
@@ -501,6 +543,7 @@ def run(rep, props, replay=None):
     if replay is not None:
         return replay_case(rep, replay)
     helper_level(rep, rng, quick)
+    select_level(rep, rng, quick)
     api_level(rep, rng, quick)
 
 
